@@ -468,6 +468,61 @@ Proof.
 Qed.
 Print Assumptions C06_lattice_end_to_end_linked.
 
+(* the CONVERSE of C06_lattice_end_to_end_linked (round 3): a cell returned by pot_fill
+   that is true at p comes from an element of the declared ranges with a non-zero entry
+   whose translated unit cell contains p', and either the entry is the own universe and the
+   cell carries the lattice cell's material, or p' = t + placement(q) for a point q located
+   along a descent of the entry's universe whose last cell gives the material.  Together
+   with the forward theorem: the linked statement is an iff like the unlinked one.
+   Extra hypotheses: the lattice universe's list holds ONLY element cells, and (C05's Den
+   being partial) every descent below the container has a value at p and the lattice cell
+   has a value everywhere. *)
+Theorem C06_lattice_end_to_end_conv_linked :
+  forall (surf : Type) (teqb : list R -> list R -> bool) (tr_surf : list R -> surf -> surf)
+         (inv : list R -> @vec R -> @vec R) (sense : surf -> @vec R -> bool),
+  (forall t o p, sense (tr_surf t o) p = sense o (inv t p)) ->
+  (forall a b, teqb a b = true -> is_nil a = is_nil b /\ forall p, inv a p = inv b p) ->
+  forall (cell : @lat_cell R) (vecs : list (@vec R)) (bs : bounds) (spec : list Z),
+  lc_fill cell = FSpec bs spec -> bs <> [] -> wf_bounds bs ->
+  Z.of_nat (List.length spec) = size bs ->
+  (List.length vecs <= List.length bs)%nat -> Forall trivial_range (skipn (List.length vecs) bs) ->
+  cell_shape_ok cell ->
+  exists elems, develop_lattice_with RS (Ok vecs) cell = Ok elems /\
+  forall (fuel cf : nat) (s0 s1 s2 : M5.state (list R) surf) (latkey : Z) (lcl : M5.cell (list R))
+         (keys : list Z) (du : list (Z * list Z)) (ifd ifg : bool) (key : Z)
+         (kcl : M5.cell (list R)) (U : Z) (ks : list Z),
+  Forall (fun e => inverse_of inv (ne_trnsf e) /\ inverse_of inv (ne_filltr e)) elems ->
+  P5.Inv (list R) surf (@vec R) (@is_nil R) inv sense s0 ->
+  M5.dget latkey (M5.s_cells s0) = Some lcl ->
+  develop_state surf teqb tr_surf fuel latkey elems s0 = M5.Ok (keys, s1) ->
+  M5.dget key (M5.s_cells s1) = Some kcl -> M5.c_fill kcl = Some U ->
+  (forall k, In k (M5.du_get U du) -> In k keys) ->
+  (forall c cl, M5.dget c (M5.s_cells s1) = Some cl -> M5.c_orig cl = []) ->
+  (forall u c, In c (M5.du_get u du) -> exists cl, M5.dget c (M5.s_cells s1) = Some cl) ->
+  M5.pot_fill (list R) surf (@is_nil R) teqb tr_surf fuel cf du ifd ifg key s1 = M5.Ok (ks, s2) ->
+  forall p, let p' := S5.frame (list R) (@vec R) (@is_nil R) inv kcl p in
+  (forall ch chs, S5.Paths (list R) surf s1 du key chs -> In ch chs ->
+     exists b, S5.LocB (list R) surf (@vec R) (@is_nil R) inv sense s1 du key p ch b) ->
+  (forall q, exists b, S5.Den (list R) surf (@vec R) sense s0 q (M5.TRef latkey) b) ->
+  forall k ncl, In k ks -> M5.dget k (M5.s_cells s2) = Some ncl ->
+  S5.Den (list R) surf (@vec R) sense s2 p (M5.TRef k) true ->
+  exists idx, in_ranges idx bs /\
+    let t := lattice_point vecs idx in
+    let u := nth (Z.to_nat (flat_index bs idx)) spec 0%Z in
+    u <> 0%Z /\ S5.Den (list R) surf (@vec R) sense s1 p (M5.c_geom kcl) true /\
+    S5.Den (list R) surf (@vec R) sense s0 (vdiff RS p' t) (M5.TRef latkey) true /\
+    ((u = lc_universe cell /\ M5.c_mat ncl = M5.c_mat lcl /\ M5.c_rho ncl = M5.c_rho lcl) \/
+     (u <> lc_universe cell /\
+      exists q c ch lfl, In c (M5.du_get u du) /\ p' = vadd RS (placement cell q) t /\
+        S5.Located (list R) surf (@vec R) (@is_nil R) inv sense s1 du c q ch /\
+        M5.dget (last ch 0%Z) (M5.s_cells s1) = Some lfl /\
+        M5.c_mat ncl = M5.c_mat lfl /\ M5.c_rho ncl = M5.c_rho lfl)).
+Proof.
+  intros surf teqb tr_surf inv sense H1 H2 cell vecs bs spec.
+  exact (lattice_end_to_end_linked_conv surf teqb tr_surf inv sense H1 H2 cell vecs bs spec).
+Qed.
+Print Assumptions C06_lattice_end_to_end_conv_linked.
+
 (* the hypothesis [inverse_of] is satisfiable: p -> B (p - O) is the inverse of C06's point
    map for every orthogonal [O; B]; translations are orthogonal and composing with the
    element translation keeps the matrix, so every transformation develop_lattice produces
